@@ -181,3 +181,27 @@ pub fn to_board_builder(p: &Pos1) -> Option<Result<Board, String>> {
     b.full_move_clock(p.fmn as u16);
     Some(b.build().map_err(|e| format!("{e:?}")))
 }
+
+/// what a loaded board shows differs from the position that was loaded: which component
+pub fn load_mismatch(b: &Board, p: &Pos1) -> Option<String> {
+    match read_board(b) {
+        Ok(g) if g == *p => None,
+        Ok(g) => {
+            let what = if g.sq != p.sq {
+                "placement"
+            } else if g.stm != p.stm {
+                "turn"
+            } else if g.cr != p.cr {
+                "rights"
+            } else if g.ep != p.ep {
+                "ep"
+            } else if g.hmc != p.hmc {
+                "halfmove"
+            } else {
+                "fullmove"
+            };
+            Some(what.to_string())
+        }
+        Err(_) => Some("partition".to_string()),
+    }
+}
